@@ -80,10 +80,23 @@ func (g *HistGen) hashPool() []string {
 // separator: none, '.' only, '\' only, or both in the wrong order
 var collisionPairs = [][2]string{{"a.b", "c"}, {"a", "b.c"}, {"a\\", "b.c"}, {"a.", "b"}, {"a", ".b"}, {"a\\.b", "c"}, {"a\\", ".b.c"}}
 
+// the same for a number hash key (a decimal point is the separator character too)
+var collisionPairsNS = [][2]string{{"1.5", "x"}, {"1", "5.x"}, {"2.5", "b"}, {"2", "5.b"}}
+var collisionPairsNN = [][2]string{{"1", "2.3"}, {"1.2", "3"}, {"4", "5.6"}, {"4.5", "6"}}
+
 func (g *HistGen) genKey(t *TableSpec) Item {
-	if g.p.DotKeys && t.Range != nil && t.Hash[1] == "S" && t.Range[1] == "S" && g.r.Chance(40) {
-		p := pick(g.r, collisionPairs)
-		return Item{{[]byte(t.Hash[0]), S(p[0])}, {[]byte(t.Range[0]), S(p[1])}}
+	if g.p.DotKeys && t.Range != nil && g.r.Chance(40) {
+		switch {
+		case t.Hash[1] == "S" && t.Range[1] == "S":
+			p := pick(g.r, collisionPairs)
+			return Item{{[]byte(t.Hash[0]), S(p[0])}, {[]byte(t.Range[0]), S(p[1])}}
+		case t.Hash[1] == "N" && t.Range[1] == "S":
+			p := pick(g.r, collisionPairsNS)
+			return Item{{[]byte(t.Hash[0]), Nn(p[0])}, {[]byte(t.Range[0]), S(p[1])}}
+		case t.Hash[1] == "N" && t.Range[1] == "N":
+			p := pick(g.r, collisionPairsNN)
+			return Item{{[]byte(t.Hash[0]), Nn(p[0])}, {[]byte(t.Range[0]), Nn(p[1])}}
+		}
 	}
 	k := Item{{[]byte(t.Hash[0]), g.keyVal(t.Hash[1], g.hashPool())}}
 	if t.Range != nil {
@@ -261,13 +274,13 @@ func (g *HistGen) newIndexSpec(name string) IndexSpec {
 
 func (g *HistGen) createTable(name string) {
 	t := &TableSpec{Name: name, Hash: [2]string{"h", "S"}}
-	if g.p.NumericKeys && g.r.Chance(25) {
-		t.Hash[1] = pick(g.r, []string{"N", "B"})
+	if g.p.NumericKeys && g.r.Chance(30) {
+		t.Hash[1] = pick(g.r, []string{"N", "N", "B"})
 	}
-	if g.r.Chance(55) {
+	if g.r.Chance(55) || (g.p.NumericKeys && g.r.Chance(40)) {
 		rt := "S"
-		if g.p.NumericKeys && g.r.Chance(30) {
-			rt = pick(g.r, []string{"N", "B"})
+		if g.p.NumericKeys && g.r.Chance(45) {
+			rt = pick(g.r, []string{"N", "N", "B"})
 		}
 		t.Range = &[2]string{"r", rt}
 	}
@@ -366,8 +379,8 @@ func (g *HistGen) maybeCond(t *TableSpec, op *Op) {
 		op.Cond = &h
 	}
 	op.setExprs(ctx.Names, ctx.Values)
-	// unused / malformed placeholders
-	if g.r.Chance(g.p.BadPct / 2) {
+	// unused / malformed placeholders (often together with a second fault: a table that does not exist)
+	if g.r.Chance(g.p.BadPct/2) || (t.Name == "nosuchtable" && g.r.Chance(60)) {
 		switch g.r.Intn(4) {
 		case 0:
 			ctx.Names["#unused"] = "v"
@@ -508,7 +521,9 @@ func (g *HistGen) genGet() {
 
 // variant of a registered native expression: same text, extra white space, or an anagram
 func (g *HistGen) variant(e string) string {
-	switch g.r.Intn(6) {
+	switch g.r.Intn(7) {
+	case 6: // a space character the lexer does not know: a different (and malformed) expression
+		return strings.Replace(e, " ", pick(g.r, []string{"\u00a0", "\v", "\f", "\u0085", "\u2003"}), 1)
 	case 5: // another letter case somewhere outside the placeholders: a different expression
 		b := []byte(e)
 		var cand []int
@@ -679,6 +694,19 @@ func (g *HistGen) searchOpX(kind string, forceScan bool) *Op {
 			}
 		}
 		op.Filter = HexS(f)
+	}
+	if g.r.Chance(g.p.BadPct/3) || ((t.Name == "nosuchtable" || op.Index == "nosuchindex") && g.r.Chance(60)) {
+		// two faults at once: which one is reported must not depend on the client
+		switch g.r.Intn(4) {
+		case 0:
+			ctx.Names["#unused"] = "v"
+		case 1:
+			ctx.Values[":unused"] = S("1")
+		case 2:
+			ctx.Names["#bad-name"] = "v"
+		default:
+			ctx.Values[":bad-value"] = S("1")
+		}
 	}
 	op.setExprs(ctx.Names, ctx.Values)
 	if g.r.Chance(50) || kind == "pages" {
